@@ -141,3 +141,20 @@ META.update({
     ),
 })
 NOT_APPLICABLE = [dict(property_id=p, reason="check not built yet in this session (work in progress; DESIGN.md section 6 describes the planned property-based check)") for p in ALL if p not in META]
+
+# Extensions made after the seeded-change rounds and the mutation sweep (DESIGN.md section 12.6): appended to the level texts.
+_ADDED = {
+    "C01": " Also generated: executions whose context is already cancelled, instances that register only some of their listeners, instances built through the convenience constructors, executions through the package-level failsafe.Get* functions, and a recording retry delay function.",
+    "C04": " Configurations cover count, ratio, count-in-period and rate-in-period thresholds; in half of the scenarios the OnOpen listener is slow and further executions are submitted while it runs.",
+    "C05": " A hammer test keeps 3..8 persistent workers in lock-step through a spin barrier for hundreds of linearized rounds per case; all limiter constructors are exercised.",
+    "C07": " One trial in three builds its Timeout as one of several from a shared builder with different listeners; a further test cancels the caller's context during an attempt that follows attempts ended by the Timeout (no ErrExceeded before that attempt's limit could elapse).",
+    "C10": " A further test re-reads the fallback function's view of the failure after a cancellation (Timeout, ExecutionResult.Cancel, context) landed while the function runs.",
+    "C12": " A further test uses policies over R = any with pointer, slice, map and struct results built separately from the registered values (deep equality vs identity).",
+    "C13": " Configurations may be preceded by builder calls the documentation says are replaced; the probe interleaves a second execution through the same policy instance.",
+    "C15": " A further test parks the hedge policy's goroutine in user code while a result and a Cancel both become pending.",
+    "C16": " Instances may register only a subset of their listeners; a further test runs Hedge(Retry(fn)) with gated and burst schedules of overlapping failing branches.",
+    "C18": " Further: transport error classes (terminal vs retryable, exact attempt counts), overlapping uploads of hedged attempts (6 MiB bodies held back by the server), and over bufconn a tap handle with a load limiting policy.",
+    "C19": " HTTP scenarios include retries rejected by an inner breaker or rate limiter, request bodies whose rewind fails, outages, hedges with custom cancel conditions answered simultaneously, and hand-written request contexts.",
+}
+for _k, _v in _ADDED.items():
+    META[_k]["text"] = META[_k]["text"] + _v
